@@ -82,10 +82,10 @@ def oracle(ctx, deep):
                 continue
         want = math.log2(exact) if exact > 0 else float("-inf")
         if math.isnan(got):
-            ctx.violations.append({"finding_key": "C07-nan", "what": "Entropy() is NaN", "recipe": meta["recipe"], "line": line, "observed": a, "exact_count": str(exact)})
+            ctx.violations.append({"finding_key": "C07-nan", "what": "Entropy() is NaN", "recipe": meta["recipe"], "line": line, "observed": a, "exact_count": hex(exact)})
         elif not entropy_close(d["ent"][2:], want):
             ctx.violations.append({"finding_key": "C07-value", "what": "Entropy() = %r but log2(exact count) = %r" % (got, want),
-                                   "recipe": meta["recipe"], "line": line, "observed": a, "exact_count": str(exact)})
+                                   "recipe": meta["recipe"], "line": line, "observed": a, "exact_count": hex(exact)})
         elif fams and int(d["count"], 16) != exact:
             ctx.violations.append({"finding_key": "C07-count", "what": "the exact count exported by the hook is %d, the true count is %d" % (int(d["count"], 16), exact),
                                    "recipe": meta["recipe"], "line": line, "observed": a})
